@@ -758,6 +758,10 @@ pub fn equivalent_variant(base: &ProgCase, rng: &mut Rng) -> Option<(ProgCase, &
                 }
             }
             _ => {
+                if c.cfg.audio_prior.is_some() {
+                    // an earlier audio() call exists: removing the final audio(None) would re-enable it
+                    continue;
+                }
                 match &c.cfg.audio {
                     None => {
                         c.cfg.audio = Some(AudioCfg { codec: ACodec::NoneCodec, rate: *rng.pick(&[0u32, 48000, 7]), channels: *rng.pick(&[0u16, 2, 9]), alias: rng.bool() });
